@@ -1498,6 +1498,9 @@ var jsSeeds = []string{
 	"if (a) { b(); } else { c = [1, 2]; }",
 	"class K { m() { for (;;) {} } }",
 	"x = {a: 1, b: `t${y}`}; y = a ? b : c",
+	// line breaks inside nested constructs: after a deletion the offending token starts a line, so
+	// the error token is an automatically inserted semicolon with the real token delayed
+	"x = {a: 1 +\n 2 * 3,\n b: [c,\n d]}\ny = f(a,\n b)\n",
 }
 
 // tokenRanges returns the (offset, endoffset) of every non-eoi token of the language's lexer.
